@@ -85,8 +85,10 @@ class Report:
     # ---- output
     def finish(self, broken=None):
         wall = time.time() - self.t0
-        os.makedirs(os.path.join(VERIF, 'evidence'), exist_ok=True)
-        os.makedirs(os.path.join(VERIF, 'out'), exist_ok=True)
+        evdir = os.environ.get('VERIF_EVIDENCE_DIR') or os.path.join(VERIF, 'evidence')     # self-tests on scratch copies write elsewhere
+        outdir = os.environ.get('VERIF_OUT_DIR') or os.path.join(VERIF, 'out')
+        os.makedirs(evdir, exist_ok=True)
+        os.makedirs(outdir, exist_ok=True)
         n_obl = len(self.obligations)
         n_ok = sum(1 for o in self.obligations if o[2])
         distinct = len({(o[0], o[1]) for o in self.obligations})
@@ -123,7 +125,7 @@ class Report:
         }
         if broken:
             ev['coverage']['analysis_broken'] = broken
-        json.dump(ev, open(os.path.join(VERIF, 'evidence', self.pid + '.json'), 'w'), indent=1)
+        json.dump(ev, open(os.path.join(evdir, self.pid + '.json'), 'w'), indent=1)
         print('analysed: ' + json.dumps(self.analysed))
         for r in sorted(per_rule):
             print('rule %s: %d/%d obligations discharged -- %s' % (r, per_rule[r]['discharged'], per_rule[r]['obligations'], per_rule[r]['text'][:110]))
@@ -134,7 +136,7 @@ class Report:
             return 2
         if self.violations:
             for i, v in enumerate(self.violations):
-                p = os.path.join(VERIF, 'out', '%s_violation_%d.json' % (self.pid, i))
+                p = os.path.join(outdir, '%s_violation_%d.json' % (self.pid, i))
                 v['rerun'] = './check %s --tier %s' % (self.pid, self.tier)
                 json.dump(v, open(p, 'w'), indent=1)
                 print('  %s at %s: %s' % (v['key'], v['site'], v['what']))
